@@ -45,8 +45,8 @@ def sample_outcomes(ctx, chk, flags=("pos", "pos"), classes=(SCORES, GROUP)):
             label = "%s.bootstrap_sample[%s,%s%s]" % (cls.split(".")[-1], m, s, ",smoothing" if sm else "")
 
             def thunk():
-                obj = ctx.scores_obj(flags[0], flags[1], cls, ep=Sym("Ep", ("int", "notnone")) if cls == SCORES else Const(0),
-                                     en=Sym("En", ("int", "notnone")) if cls == SCORES else Const(0))
+                obj = ctx.scores_obj(flags[0], flags[1], cls, ep=Sym("Ep", ("int", "notnone", "nonneg")) if cls == SCORES else Const(0),
+                                     en=Sym("En", ("int", "notnone", "nonneg")) if cls == SCORES else Const(0))
                 cfg = make_config(ctx, m, s, sm, ratio)
                 return ctx.ev.call(ctx.method(obj, "bootstrap_sample"), [], {"config": cfg})
 
@@ -526,9 +526,12 @@ def draw_parameters(ctx, chk):
                     chk.unknown("R11.9", "%s: %s" % (tag, str(e)[:120]))
                     continue
                 bad, n = None, 0
+                some = compare(">", ALLN, Const(0))
                 for o in outs:
                     if o.kind != "return":
                         continue
+                    if any(c == some and not t for c, t in o.pc):
+                        continue      # "no samples at all" contradicts the standing assumption of two non-empty classes
                     n += 1
                     from .c09 import zero_facts
                     z = zero_facts(o.pc)     # easy counts that this path knows to be zero
